@@ -176,8 +176,8 @@ impl Check for C04 {
     }
     fn phases(&self, tier: Tier) -> Vec<Phase> {
         match tier {
-            Tier::Quick => vec![Phase::random("full-grammar", 6_000, 4096).batch(100).watchdog(30_000)],
-            Tier::Thorough => vec![Phase::random("full-grammar", 150_000, 4096).batch(200).watchdog(30_000)],
+            Tier::Quick => vec![Phase::random("full-grammar", 25_000, 4096).batch(100).watchdog(30_000)],
+            Tier::Thorough => vec![Phase::random("full-grammar", 400_000, 4096).batch(200).watchdog(30_000)],
         }
     }
     fn describe(&self, _phase: usize, tape: &[u8]) -> String {
